@@ -317,9 +317,16 @@ impl Ref {
         // an edit that leaves the sequence of DATA constants as it was leaves the position alone;
         // otherwise the position is unknown until RUN / CLEAR / RESTORE
         let after: Vec<V> = self.data.iter().map(|(_, v)| v.clone()).collect();
-        if before != after {
+        if before != after && self.data_ptr != 0 {
+            // (a position at the very start stays at the very start)
             self.data_unknown = true;
         }
+    }
+
+    /// NEW typed at the prompt: CLEAR plus an empty listing.
+    pub fn new_program(&mut self) {
+        self.edit_program(&Program::default());
+        self.do_clear();
     }
 
     fn collect_data(&mut self, line: usize, stmts: &[Stmt]) {
